@@ -51,8 +51,11 @@ def run(ctx):
         dis["lex"] = common.run_stream(ctx, "lex", lops[: 3000 * scale])
         dis["tok"] = common.run_stream(ctx, "tok", robust.tok_ops(ctx, 1500 * scale, bcs), cwd=wd)
     regress = robust.replay_findings(ctx, [])
-    n = ctx.pick(2500, 25000)
+    n = ctx.pick(1800, 18000)
     texts, kinds = robust.gen_texts(ctx, n)
+    gp = robust.gen_programs(ctx, ctx.pick(900, 9000))
+    kinds["grammar-programs"] = len(gp)
+    texts += gp
     texts += cyclic_programs(ctx, ctx.pick(60, 600))
     flagsets = [[], ["-i"], ["--suggest", "--row=2"], ["--hover", "--row=3"]]
     failures, stats = robust.sweep(ctx, texts, flagsets, {"hang"}, "ti-hang-sweep")
@@ -61,7 +64,8 @@ def run(ctx):
         ctx.sample(t[:200])
 
     def search():
-        more, _ = robust.gen_texts(ctx, 8000)
+        more, _ = robust.gen_texts(ctx, 5000)
+        more += robust.gen_programs(ctx, 3000)
         more += cyclic_programs(ctx, 1000)
         f2, _ = robust.sweep(ctx, more, flagsets, {"hang"}, "search")
         return f2
